@@ -6,7 +6,8 @@ C12 - hidden objects leave no trace; private objects are always marked private.
   R12.3 visibility inherits from containers
   R12.4 private marker present at every listing-entry constructor
   R12.5 generated mentions: the class index files a class under the written name of a base only when that base is not a documented object;
-        the "overrides" note is only produced for a visible member
+        the "overrides" note is only produced for a visible member; "from <interface>", "(via ...)" and the documented/total counts of an
+        undocumented container only name or count visible objects
 Does not decide: textual mentions of a hidden name, CSS/JS behaviour of the toggle.
 """
 from __future__ import annotations
@@ -479,7 +480,43 @@ def run(repo: Repo, chk: Check, thorough: bool = False) -> None:
                f'`{subj}` is tested for visibility first' if vis else
                f'the note is produced whatever the privacy of `{subj}`: the page of the subclass prints `overrides <code>pkg.pub.Base.secret</code>` for a hidden method',
                repo.loc(goi.mod, c))
-    chk.require('R12.5', 2)
+    # three more generated mentions (second hunter round): the note "from <interface>" of a method implementing an interface, the "(via X, Y)" chain
+    # of an inherited-members table, and the "n/m methods documented" text of an undocumented class or module
+    im_ = repo.func('pydoctor.templatewriter.pages.ZopeInterfaceClassPage.interfaceMeth')
+    rets_ = [r for r in im_.walk() if isinstance(r, ast.Return) and r.value is not None and not (isinstance(r.value, ast.Constant) and r.value.value is None)]
+    if not rets_:
+        raise AnalysisError('R12.5: interfaceMeth returns nothing but None')
+    cfi = CFG(im_)
+    for r in rets_:
+        okv = any(pol and isinstance(x, ast.Attribute) and x.attr == 'isVisible' and norm(x.value) == norm(r.value) for x, pol in cfi.dominating_tests(r))
+        chk.ob('R12.5', 'templatewriter.pages.ZopeInterfaceClassPage.interfaceMeth :: only a visible declaration is named', okv,
+               f'`{norm(r.value)}.isVisible` dominates the return' if okv else
+               f'`{norm(r)}` hands back a hidden declaration too: the page of the implementing class prints `from <code>pkg.ifaces.ISecret</code>` for a hidden interface',
+               repo.loc(im_.mod, r))
+    bn_ = repo.func('pydoctor.templatewriter.pages.ClassPage.baseName')
+    basesp = bn_.params()[1].arg
+    sl_ = [n for n in bn_.walk() if isinstance(n, ast.Assign) and any(isinstance(x, ast.Subscript) and isinstance(x.slice, ast.Slice) and norm(x.value) == basesp and
+                                                                     x.slice.lower is not None and x.slice.upper is not None for x in ast.walk(n.value))]
+    if not sl_:
+        raise AnalysisError('R12.5: the chain of intermediate classes (bases[1:-1]) was not found in ClassPage.baseName')
+    for n in sl_:
+        okv = any(isinstance(x, ast.Attribute) and x.attr == 'isVisible' for x in ast.walk(n.value))
+        chk.ob('R12.5', 'templatewriter.pages.ClassPage.baseName :: the "(via ...)" chain names visible classes only', okv,
+               f'`{norm(n.value)[:60]}`' if okv else
+               f'`{norm(n)[:60]}` takes the intermediate classes of the linearisation unfiltered: "Inherited from Base (via Middle, <code>GlueImpl</code>)" names a hidden class',
+               repo.loc(bn_.mod, n))
+    fu_ = repo.func('pydoctor.epydoc2stan.format_undocumented')
+    loops_ = [n for n in fu_.walk() if isinstance(n, ast.For) and 'contents' in norm(n.iter) and isinstance(n.target, ast.Name)]
+    if not loops_:
+        raise AnalysisError('R12.5: format_undocumented no longer loops over the contents of the object')
+    for n in loops_:
+        okv = any(isinstance(x, ast.Attribute) and x.attr == 'isVisible' and norm(x.value) == n.target.id for st in n.body for x in ast.walk(st)) or \
+            any(isinstance(x, ast.Attribute) and x.attr == 'isVisible' for x in ast.walk(n.iter))
+        chk.ob('R12.5', 'epydoc2stan.format_undocumented :: hidden members are not counted', okv,
+               f'`{n.target.id}.isVisible` filters the members' if okv else
+               'every member is counted: the row of an undocumented class says "3/4 methods documented" although its page shows two methods - the number of hidden members '
+               'can be read off the summary', repo.loc(fu_.mod, n))
+    chk.require('R12.5', 5)
 
 
 # ----------------------------------------------------------------------------------------------------------
